@@ -52,9 +52,10 @@ def run_proc_lookup(spec, res):
             sig = {'backend': be, 'harness': 'process-pool', 'aspect': 'absent-key'}
             res.case(('proc-lookup', be, kind), True)
             try:
-                p = subprocess.run([PYTHON, '-W', 'ignore', '-m', 'vlib.c03_child',
-                                    json.dumps(sc)], cwd=str(HOME), env=env,
-                                   capture_output=True, text=True, timeout=90)
+                from ..procpool import run_child
+                p = run_child([PYTHON, '-W', 'ignore', '-m', 'vlib.c03_child',
+                               json.dumps(sc)], 90, cwd=str(HOME), env=env,
+                              capture_output=True, text=True)
             except subprocess.TimeoutExpired:
                 res.violation('lookup-error-lost-in-transport', case,
                               {'consumer': 'blocked for 90 s'}, sig=sig)
